@@ -90,11 +90,42 @@ def _emitted(fa: FA):
                     return None
                 out.setdefault(k, []).append((v, a_))
         if isinstance(r.value, ast.Name):
-            for st in fa.stmts(ast.Assign):
-                for t in st.targets:
-                    if isinstance(t, ast.Subscript) and isinstance(t.value, ast.Name) and t.value.id == r.value.id and A.const_str(t.slice) and fa.nodes(st):
-                        out.setdefault(A.const_str(t.slice), []).append((st.value, fa.nodes(st)[0]))
+            for (k, v, a_) in _entries_put_into(fa, r.value.id):
+                out.setdefault(k, []).append((v, a_))
     return out if found else None
+
+
+def _entries_put_into(fa: FA, name: str):
+    """[(key, value expr, cfg node)]: entries statements put into the dict held by local `name` after it was bound:
+    `name['k'] = v`, `name.update({'k': v})`, `name.update(k=v)`, `name |= {'k': v}`, `name.setdefault('k', v)`."""
+    out = []
+    for st in fa.stmts((ast.Assign, ast.AugAssign, ast.Expr)):
+        if not fa.nodes(st):
+            continue
+        at = fa.nodes(st)[0]
+        if isinstance(st, ast.Assign):
+            for t in st.targets:
+                if isinstance(t, ast.Subscript) and isinstance(t.value, ast.Name) and t.value.id == name and A.const_str(t.slice):
+                    out.append((A.const_str(t.slice), st.value, at))
+        elif isinstance(st, ast.AugAssign):
+            if isinstance(st.target, ast.Name) and st.target.id == name and isinstance(st.op, ast.BitOr):
+                for (alt, a_) in alternatives(fa, st.value, at):
+                    for (k, v) in (_dict_items(alt) or []):
+                        if k is not None:
+                            out.append((k, v, a_))
+        elif isinstance(st.value, ast.Call) and isinstance(st.value.func, ast.Attribute) and isinstance(st.value.func.value, ast.Name) \
+                and st.value.func.value.id == name:
+            c = st.value
+            if c.func.attr == "update":
+                for a in c.args:
+                    for (alt, a_) in alternatives(fa, a, at):
+                        for (k, v) in (_dict_items(alt) or []):
+                            if k is not None:
+                                out.append((k, v, a_))
+                out += [(k.arg, k.value, at) for k in c.keywords if k.arg is not None]
+            elif c.func.attr == "setdefault" and len(c.args) == 2 and A.const_str(c.args[0]):
+                out.append((A.const_str(c.args[0]), c.args[1], at))
+    return out
 
 
 def _state_key_of(fa: FA, n, at, param):
@@ -102,8 +133,14 @@ def _state_key_of(fa: FA, n, at, param):
     base = key = None
     if isinstance(n, ast.Subscript) and A.const_str(n.slice):
         base, key = n.value, A.const_str(n.slice)
-    elif isinstance(n, ast.Call) and A.call_attr(n) == "get" and n.args and A.const_str(n.args[0]) and isinstance(n.func, ast.Attribute):
+    elif isinstance(n, ast.Call) and A.call_attr(n) in ("get", "__getitem__") and n.args and A.const_str(n.args[0]) and isinstance(n.func, ast.Attribute):
         base, key = n.func.value, A.const_str(n.args[0])
+    if key is None and isinstance(n, ast.Call) and isinstance(n.func, ast.Name) and at is not None and len(n.args) >= 1 and A.const_str(n.args[0]) \
+            and fa.df.is_local(n.func.id):
+        # read = state.__getitem__ / state.get ... read('k')
+        acc = fa.expand(n.func, at)
+        if isinstance(acc, ast.Attribute) and acc.attr in ("get", "__getitem__"):
+            base, key = acc.value, A.const_str(n.args[0])
     if key is None or not isinstance(base, ast.Name):
         return None
     if base.id == param or (at is not None and param_rooted(fa, base, at, param)):
@@ -142,8 +179,18 @@ def _attrs_in_flow(fa: FA, expr, at, param):
     return out
 
 
+def _mapped_over(n, name):
+    """`map(<...>.name, xs)` -> xs : the function is applied to every element of ONE iterable; else None."""
+    if isinstance(n, ast.Call) and isinstance(n.func, ast.Name) and n.func.id == "map" and len(n.args) == 2 and not n.keywords:
+        f = n.args[0]
+        if (isinstance(f, ast.Attribute) and f.attr == name) or (isinstance(f, ast.Name) and f.id == name):
+            return n.args[1]
+    return None
+
+
 def _calls_in_flow(fa: FA, expr, at, name):
-    return [n for (n, a_) in flow_nodes(fa, expr, at) if isinstance(n, ast.Call) and A.call_attr(n) == name]
+    """Applications of the function `name` the value is computed from: direct calls and map(name, xs)."""
+    return [n for (n, a_) in flow_nodes(fa, expr, at) if isinstance(n, ast.Call) and (A.call_attr(n) == name or _mapped_over(n, name) is not None)]
 
 
 def _ctor_params(ck, cls_qual):
@@ -166,6 +213,31 @@ def _call_args(call, params):
     return out
 
 
+def _bound_args(fa: FA, call, params):
+    """{callee parameter: (value expr, cfg node where it is evaluated)} of a call: positional arguments mapped through
+    the callee's parameter list, keywords, and a `**fields` whose value is ONE dict built in this function (a literal /
+    dict(...) call, plus the entries stored into it afterwards).  None when the binding cannot be told."""
+    at = at_of(fa, call)
+    plain = ast.Call(func=call.func, args=call.args, keywords=[k for k in call.keywords if k.arg is not None])
+    base = _call_args(plain, params)
+    if base is None:
+        return None
+    out = {p: (v, at) for p, v in base.items()}
+    for k in call.keywords:
+        if k.arg is not None:
+            continue
+        alts = alternatives(fa, k.value, at)
+        items = _dict_items(alts[0][0]) if len(alts) == 1 else None
+        if items is None or any(key is None for key, _ in items):
+            return None
+        for key, v in items:
+            out[key] = (v, alts[0][1])
+        if isinstance(k.value, ast.Name):
+            for (key, v, a_) in _entries_put_into(fa, k.value.id):
+                out[key] = (v, a_)
+    return out
+
+
 def _is_chain(fa: FA, e, at, param, attrs) -> bool:
     """e is <param>.<attrs...> (param possibly through an alias)."""
     for a in reversed(attrs):
@@ -173,6 +245,29 @@ def _is_chain(fa: FA, e, at, param, attrs) -> bool:
             return False
         e = e.value
     return isinstance(e, ast.Name) and (e.id == param or param_rooted(fa, e, at, param))
+
+
+def _check_field_correspondence(ck, R, enc: FA, emitted, dec: FA, site, fed_from, what):
+    """A wire field carries ONE attribute of the object; the decoder hands the field back to the constructor parameter of
+    that very attribute.  (Each side may be complete on its own — every field written, every parameter fed from exactly
+    one field — and the pair still not round-trip: `kwargs` restored from the field `contextArgs` was written from.)"""
+    obj = _first_param(enc, "obj")
+    attrs_of = {}
+    for k, vals in emitted.items():
+        for (v, a_) in vals:
+            attrs_of.setdefault(k, set()).update(_attrs_in_flow(enc, v, a_, obj))
+    for p, ks in sorted(fed_from.items()):
+        if p is None or len(ks) != 1:
+            continue
+        k = next(iter(ks))
+        attrs = attrs_of.get(k) or set()
+        if not attrs:
+            continue  # (the encoder's reads are accounted for by reads-all-fields)
+        ok = any(a.lstrip("_") == p.lstrip("_") for a in attrs)
+        ck.ob(R, dec.key(site, "field-matches:" + p), ok, "%s comes back from the field %r it was written to" % (p, k) if ok else
+              "%s is rebuilt with %s taken from the field %r, but %s writes %s there: after a round trip %s holds another "
+              "attribute's value (the decoded memento is not equivalent, its argument hash differs)"
+              % (what, p, k, enc.fi.name, "/".join("%s.%s" % (obj, a) for a in sorted(attrs)), p), dec.where(site))
 
 
 # ---- versioned content keys -----------------------------------------------------------------------------
@@ -314,6 +409,10 @@ def check_decoders_pure(ck, R):
             calls = _calls_in_flow(di, v, at, "decode_fn_reference_with_args")
             ok = bool(calls)
             for c in calls:
+                xs = _mapped_over(c, "decode_fn_reference_with_args")
+                if xs is not None:
+                    ok = ok and "invocations" in _keys_in_flow(di, xs, at_of(di, c))
+                    continue
                 elem = c.args[0] if len(c.args) == 1 and not c.keywords else None
                 per_element = False
                 if isinstance(elem, ast.Name):
@@ -558,10 +657,33 @@ def _name_values(fa: FA, name: ast.Name, at):
     return out
 
 
+def _helper_results(fa: FA, e):
+    """(FA of the helper, [(returned expr, cfg node)]) when `e` is a call of ONE function of this repository that
+    could not be written out at the call site (say, because it returns from inside a loop): what the call may
+    evaluate to is what the helper returns.  None for anything else."""
+    if not isinstance(e, ast.Call):
+        return None
+    try:
+        cands, how = fa.ck.cg.resolve(e, fa.fi)
+    except Exception:  # noqa
+        return None
+    if how not in ("typed", "module", "nested") or len(cands) != 1 or cands[0] is fa.fi:
+        return None
+    h = FA(fa.ck, cands[0])
+    out = [(r.value, h.nodes(r)[0]) for r in h.returns() if r.value is not None and h.nodes(r)]
+    return (h, out) if out else None
+
+
 def _members(fa: FA, e, at, depth=0):
     """ResultType members the expression may denote."""
     if depth > 8:
         raise AnalysisError("%s: tag expression too deep" % fa.qual)
+    hr = _helper_results(fa, e)
+    if hr is not None:
+        out = set()
+        for (v, a_) in hr[1]:
+            out |= _members(hr[0], v, a_, depth + 1)
+        return out
     if isinstance(e, ast.Attribute) and isinstance(e.value, ast.Name) and e.value.id == "ResultType":
         return {e.attr}
     if A.is_none(e):
@@ -609,6 +731,12 @@ def _tags(fa: FA, e, at, depth=0):
         return out
     if isinstance(e, ast.Call) and A.call_attr(e) == "str" and len(e.args) == 1:
         return _tags(fa, e.args[0], at, depth + 1)
+    hr = _helper_results(fa, e)
+    if hr is not None:
+        out = set()
+        for (v, a_) in hr[1]:
+            out |= _tags(hr[0], v, a_, depth + 1)
+        return out
     raise AnalysisError("%s: cannot tell which argument tag `%s` is" % (fa.qual, A.short(e, 50)))
 
 
@@ -680,7 +808,9 @@ def check(ck):
             if len(ctor) != 1:
                 ck.ob(R2, dec.key(None, "ctor"), False, "decode_%s does not rebuild a %s" % (name, ctor_name), dec.where())
                 continue
-            given = _call_args(ctor[0], params)
+            bound = _bound_args(dec, ctor[0], params)
+            given = {p_: v_ for p_, (v_, _a) in bound.items()} if bound is not None else None
+            given_at = {p_: a_ for p_, (_v, a_) in bound.items()} if bound is not None else {}
             kws = list(given) if given is not None else [k.arg for k in ctor[0].keywords]
             ok2 = given is not None and sorted(kws) == sorted(params)
             ck.ob(R2, dec.key(ctor[0], "ctor-params"), ok2, "%s(%s) is rebuilt with every constructor parameter" % (ctor_name, ", ".join(params)) if ok2 else
@@ -688,12 +818,15 @@ def check(ck):
             # every param is fed from a distinct state key; every key is consumed
             used = set()
             at = at_of(dec, ctor[0])
-            ctor_by_pair[name] = (dec, given or {}, at)
+            ctor_by_pair[name] = (dec, given or {}, at, given_at)
+            fed_from = {}
             for (p, v) in (given or {}).items():
-                ks = _keys_in_flow(dec, v, at)
+                ks = _keys_in_flow(dec, v, given_at.get(p, at))
+                fed_from[p] = ks
                 used |= ks
                 ck.ob(R2, dec.key(ctor[0], "fed:" + (p or "?")), len(ks) == 1, "%s is restored from %s" % (p, sorted(ks)) if len(ks) == 1 else
                       "%s is not restored from exactly one encoded field (%s)" % (p, sorted(ks)), dec.where(ctor[0]))
+            _check_field_correspondence(ck, R2, enc, d, dec, ctor[0], fed_from, ctor_name)
             ck.ob(R2, dec.key(ctor[0], "all-keys-consumed"), used == dkeys, "every encoded field is consumed" if used == dkeys else
                   "encoded fields %s are read but not passed to the constructor" % sorted(dkeys - used), dec.where(ctor[0]))
             # the encoder reads one attribute of the object per field
@@ -712,7 +845,9 @@ def check(ck):
             given = (_call_args(fq[0], cparams) if len(fq) == 1 else None) or {}
             okq = len(fq) == 1 and sorted(given) == ["parameter_names", "partial_args", "partial_kwargs", "qualified_name"]
             if len(fq) == 1:
-                ctor_by_pair[name] = (dec, given, at_of(dec, fq[0]))
+                ctor_by_pair[name] = (dec, given, at_of(dec, fq[0]), {})
+            if len(fq) == 1:
+                _check_field_correspondence(ck, R2, enc, d, dec, fq[0], {p_: _keys_in_flow(dec, v_, at_of(dec, fq[0])) for p_, v_ in given.items()}, "the reference")
             ck.ob(R2, dec.key(None, "from-qualified-name"), okq, "the reference is rebuilt from its qualified name, partials and parameter names" if okq else
                   "decode_fn_reference does not pass (qualified_name, partial_args, partial_kwargs, parameter_names)", dec.where())
 
@@ -726,20 +861,20 @@ def check(ck):
     def restored_alts(name, param):
         if name not in ctor_by_pair:
             return None, []
-        dec, given, at = ctor_by_pair[name]
+        dec, given, at, given_at = ctor_by_pair[name]
         if param not in given:
             return dec, []
-        return dec, [(dec.expand(x, a2), a2) for (x, a2) in alternatives(dec, given[param], at)]
+        return dec, [(dec.expand(x, a2), a2) for (x, a2) in alternatives(dec, given[param], given_at.get(param, at))]
 
-    def is_state_read(dec, e, field):
-        return _state_key_of(dec, e, None, _first_param(dec, "state")) == field
+    def is_state_read(dec, e, field, at=None):
+        return _state_key_of(dec, e, at, _first_param(dec, "state")) == field
 
     # memento time instant / enum by name
     em, t_out = emitted_alts("memento", "time")
     dm, t_in = restored_alts("memento", "time")
     mp = _first_param(em, "memento")
     okt = bool(t_out) and all(isinstance(x, ast.Call) and A.call_attr(x) == "encode_datetime" and len(x.args) == 1 and _is_chain(em, x.args[0], a_, mp, ["time"]) for (x, a_) in t_out) \
-        and bool(t_in) and all(isinstance(x, ast.Call) and A.call_attr(x) == "decode_datetime" and len(x.args) == 1 and is_state_read(dm, x.args[0], "time") for (x, a_) in t_in)
+        and bool(t_in) and all(isinstance(x, ast.Call) and A.call_attr(x) == "decode_datetime" and len(x.args) == 1 and is_state_read(dm, x.args[0], "time", a_) for (x, a_) in t_in)
     ck.ob(R1, em.key(None, "time-codec"), okt, "time goes through the datetime codec both ways" if okt else "memento.time is not encoded/decoded with the datetime codec", em.where())
     ei, rt_out = emitted_alts("invocation_metadata", "resultType")
     _, rs_out = emitted_alts("invocation_metadata", "runtimeSeconds")
@@ -748,9 +883,9 @@ def check(ck):
     ip = _first_param(ei, "obj")
     okr = bool(rt_out) and all(_is_chain(ei, x, a_, ip, ["result_type", "name"]) for (x, a_) in rt_out) \
         and bool(rs_out) and all(isinstance(x, ast.Call) and not x.args and not x.keywords and _is_chain(ei, x.func, a_, ip, ["runtime", "total_seconds"]) for (x, a_) in rs_out) \
-        and bool(rt_in) and all(isinstance(x, ast.Subscript) and A.norm(x.value) == "ResultType" and is_state_read(di, x.slice, "resultType") for (x, a_) in rt_in) \
+        and bool(rt_in) and all(isinstance(x, ast.Subscript) and A.norm(x.value) == "ResultType" and is_state_read(di, x.slice, "resultType", a_) for (x, a_) in rt_in) \
         and bool(rs_in) and all(isinstance(x, ast.Call) and A.call_attr(x) == "timedelta" and not x.args and len(x.keywords) == 1 and x.keywords[0].arg == "seconds"
-                                and is_state_read(di, x.keywords[0].value, "runtimeSeconds") for (x, a_) in rs_in)
+                                and is_state_read(di, x.keywords[0].value, "runtimeSeconds", a_) for (x, a_) in rs_in)
     ck.ob(R1, ei.key(None, "enum-and-runtime"), okr, "result type travels by name, runtime as seconds" if okr else
           "result type / runtime are not encoded as (name, seconds) and decoded the same way", ei.where())
 
@@ -828,9 +963,9 @@ def check(ck):
         dec = FA(ck, "%s.decode_%s" % (MC, name))
         n = 0
         if name in ctor_by_pair:
-            _, given, at = ctor_by_pair[name]
+            _, given, at, given_at = ctor_by_pair[name]
             for p in cparams_:
-                vals = [(x, a2) for (x, a2) in value_cases(dec, given[p], at) if not A.is_none(x)] if p in given else []
+                vals = [(x, a2) for (x, a2) in value_cases(dec, given[p], given_at.get(p, at)) if not A.is_none(x)] if p in given else []
                 if vals and all(_calls_in_flow(dec, x, a2, "decode_arg") for (x, a2) in vals):
                     n += 1
         ck.ob(R3, dec.key(None, "typed-args"), n == want, "all %d argument collections use %s" % (want, "decode_arg") if n == want else
